@@ -22,6 +22,10 @@ from . import common
 PR_STATUS = ['OPEN', 'DECLINED', 'MERGED', 'SUPERSEDED']
 DEP_STATUS = ['OPEN', 'MERGED', 'DECLINED']
 DEPS = ['5', '6', '99', 'abc', None]          # None: no such comment
+# spellings of a comment addressed to the robot (the grammar of C07): every one
+# of them must hold the pull request back
+SPELL = ['@robot %s', '/%s', '@robot: %s', '  @robot %s', '\n/%s', '\t@robot %s  \n', '@robot   %s',
+         '@robot %s\n']
 
 
 class Touched(BaseException):
@@ -71,15 +75,17 @@ def build(vals, sym, src='bugfix/PROJ-1-x', dst='development/4.3'):
 
     if D(vals['greeted']):
         comments.append(Comment('robot', 'Hello'))
+    spw = ctx.concretize_int(vals['sp_wait'], 0, len(SPELL) - 1) if sym else vals['sp_wait']
+    spd = spw          # one spelling per comment list (64 combinations would only multiply paths)
     if D(vals['wait']):
-        comments.append(Comment('contributor', '@robot wait'))
+        comments.append(Comment('contributor', SPELL[spw] % 'wait'))
     chosen = []
     for k in range(2):
         i = ctx.concretize_int(vals['dep%d' % k], 0, len(DEPS) - 1) if sym else vals['dep%d' % k]
         d = DEPS[i]
         chosen.append(d)
         if d is not None:
-            comments.append(Comment('contributor', '@robot after_pull_request=%s' % d))
+            comments.append(Comment('contributor', SPELL[spd] % ('after_pull_request=%s' % d)))
 
     class PRObj:
         id = 1
@@ -161,14 +167,19 @@ def run(vals, sym, **kw):
 def variables():
     v = dict(status=z3.Int('status'), st5=z3.Int('st5'), st6=z3.Int('st6'),
              dep0=z3.Int('dep0'), dep1=z3.Int('dep1'),
-             wait=z3.Bool('wait'), greeted=z3.Bool('greeted'))
+             wait=z3.Bool('wait'), greeted=z3.Bool('greeted'),
+             sp_wait=z3.Int('sp_wait'))
     return v
 
 
 def pre(v):
     return z3.And(v['status'] >= 0, v['status'] < 4, v['st5'] >= 0, v['st5'] < 3,
                   v['st6'] >= 0, v['st6'] < 3, v['dep0'] >= 0, v['dep0'] < len(DEPS),
-                  v['dep1'] >= 0, v['dep1'] < len(DEPS))
+                  v['dep1'] >= 0, v['dep1'] < len(DEPS),
+                  v['sp_wait'] >= 0, v['sp_wait'] < len(SPELL),
+                  # the spelling only matters when a hold comment exists
+                  z3.Implies(z3.And(z3.Not(v['wait']), v['dep0'] == len(DEPS) - 1, v['dep1'] == len(DEPS) - 1),
+                             v['sp_wait'] == 0))
 
 
 def oracle(v):
@@ -339,7 +350,7 @@ def check(rep):
         'reactor.Reactor.init_settings/handle_options/handle_commands',
         'commands.after_pull_request, option `wait`', 'pr_utils.notify_user/find_comment/_send_comment',
         'branches.is_cascade_producer/is_cascade_consumer/branch_factory']
-    rep.bounds = dict(dependencies='0..2 after_pull_request comments over {open/merged/declined id, '
+    rep.bounds = dict(spellings=SPELL, dependencies='0..2 after_pull_request comments over {open/merged/declined id, '
                                    'unknown id, non-numeric}', pr_status=PR_STATUS)
     rep.outside_claim += ['positions of the hold inside a history (the step is history-free)',
                           'what happens after clone_git_repo (other properties)',
